@@ -18,6 +18,10 @@ pub fn flock_file(f: &File) -> i32 {
     unsafe { libc::flock(f.as_raw_fd(), libc::LOCK_EX) }
 }
 
+pub fn lock_file(p: &Path) -> std::io::Result<File> {
+    std::fs::OpenOptions::new().write(true).create_new(true).open(p)
+}
+
 pub fn sleep_a_bit() {
     std::thread::sleep(std::time::Duration::from_millis(1));
 }
